@@ -41,6 +41,22 @@ for d in /tmp/seedout/${AG:-a}*/C*/; do
   if [ $suite -ne 0 ]; then # known flaky tests: retry once
     go test -vet=off -count=1 $pk > /tmp/sc_suite.txt 2>&1; suite=$?
   fi
+  if [ $suite -ne 0 ]; then
+    # tests known to be flaky under load (they fail on the unchanged tree too): accept the suite if
+    # nothing else fails and each of them passes when re-run alone (up to 4 attempts)
+    ftests=$(grep -E "^--- FAIL: " /tmp/sc_suite.txt | awk '{print $3}' | sort -u | tr '\n' ' ')
+    fpkgs=$(grep -E "^FAIL\s+github.com" /tmp/sc_suite.txt | awk '{print $2}' | sort -u | tr '\n' ' ')
+    onlyflaky=1
+    for t in $ftests; do
+      case " TestOriginalSampleRateIsNotedInMetaField TestWorkerHealthReporting TestCoordinatedReload TestDirectTransmission TestDirectTransmissionBatchTiming TestStableMaxAlloc " in *" $t "*) ;; *) onlyflaky=0;; esac
+    done
+    if [ -n "$ftests" ] && [ $onlyflaky -eq 1 ] && ! grep -q "build failed\|panic: test timed out" /tmp/sc_suite.txt; then
+      pat=$(echo $ftests | tr ' ' '|')
+      for attempt in 1 2 3 4; do
+        if go test -vet=off -count=1 -run "^($pat)\$" $fpkgs > /tmp/sc_flaky.txt 2>&1; then suite=0; echo "  ($name: flaky tests [$ftests] passed alone on attempt $attempt)" >> $LOG; break; fi
+      done
+    fi
+  fi
   failing=$(grep -E "^(--- FAIL|FAIL)" /tmp/sc_suite.txt | head -5 | tr '\n' ';')
   t1=$(date +%s)
   echo "$name ($agent): demo_without=$without demo_with=$with build=$build suite=$suite [$failing] pkgs=[$pk] $((t1-t0))s" >> $LOG
